@@ -6,7 +6,7 @@ sys.path.insert(0, os.path.join(os.path.dirname(os.path.dirname(os.path.abspath(
 
 from utpsa.facts import Stmt, Term, Place, Operand  # noqa
 from utpsa.prov import trace, value_sources, short_callee, place_fields  # noqa
-from utpsa.flow import typestate, switch_cond, bool_edges, switch_variant_edges, must_pass_edges, must_pass_blocks, shortest_path, path_lines, classify, ret_assignments, fmt_state  # noqa
+from utpsa.flow import ordering, typestate, switch_cond, bool_edges, switch_variant_edges, must_pass_edges, must_pass_blocks, shortest_path, path_lines, classify, ret_assignments, fmt_state  # noqa
 from utpsa.events import *  # noqa
 from utpsa.registry import rule, RuleAbort  # noqa
 
@@ -35,6 +35,47 @@ def removal_kind(body, call, container):
     return None
 
 
+def counter_helper_summary(facts, fname, container, counters):
+    """A private helper that does nothing to `container` and adjusts its counters, on every path, by amounts that are its own
+    parameters (e.g. `fn unaccount(&mut self, n) { self.len_bytes -= n; self.offset -= n as u64 }`): {tag: parameter index}.
+    None if `fname` is not such a helper.  Callers are then charged with the helper's events (amount = their argument)."""
+    b = facts.body(fname)
+    if b is None or b.kind == "closure":
+        return None
+    for t in b.calls():
+        if t.is_tracing or not t.args or t.args[0].place is None:
+            continue
+        lf = trace(b, t.args[0]).last_field
+        if lf == container:
+            return None
+        for tag, (fld, op, chk) in counters.items():
+            if lf == fld:
+                return None  # AddAssign-style counter updates are not summarised
+    out = {}
+    rets = b.return_blocks()
+    for s in b.stmts():
+        fu = field_update(b, s)
+        if fu is None:
+            continue
+        for tag, (fld, op, chk) in counters.items():
+            if fu.field != fld:
+                continue
+            if fu.op != op:
+                if any(f2 == fld and o2 == fu.op for f2, o2, _ in counters.values()):
+                    continue
+                return None
+            if fu.amount is None or tag in out:
+                return None
+            src = value_sources(b, fu.amount)
+            if len(src) != 1 or next(iter(src))[0] != "param":
+                return None
+            ok, _ = must_pass_blocks(b, rets, {s.bb})
+            if not ok:
+                return None
+            out[tag] = next(iter(src))[1]
+    return out or None
+
+
 def container_accounting(R, body, container, counters, balance, instance, local_acc=None, extra_events=None):
     """E3 coupled counters.  Per loop iteration (states are checked and reset at loop boundary edges)
     and at every return, the set of events seen must satisfy `balance(tags) -> [missing...]`.
@@ -45,6 +86,11 @@ def container_accounting(R, body, container, counters, balance, instance, local_
     """
     problems = {}
     n_events = [0]
+    helper_cache = {}
+    if counter_helper_summary(body.facts, body.name, container, counters):
+        callers = [b2.name for b2 in body.facts.bodies() for t in b2.calls() if t.resolved == body.name]
+        R.ok(instance, body.name, "counter helper (amounts = its parameters, every path): its events are charged to the callers %s" % ", ".join(sorted(set(c.split("::")[-1] for c in callers))))
+        return 0
 
     def step(it, s):
         tags = set(s)
@@ -96,6 +142,19 @@ def container_accounting(R, body, container, counters, balance, instance, local_
                 if tag:
                     tags.add(tag)
                     changed = True
+        if isinstance(it, Term) and it.kind == "call" and it.j.get("res_local") and it.resolved != body.name:
+            hs = helper_cache.get(it.resolved, False)
+            if hs is False:
+                hs = helper_cache[it.resolved] = counter_helper_summary(body.facts, it.resolved, container, counters)
+            if hs:
+                for tag, pidx in hs.items():
+                    fld, op, chk = counters[tag]
+                    if pidx - 1 < len(it.args):
+                        if chk is not None and not chk(body, it.args[pidx - 1]):
+                            problems.setdefault(("wrong-amount", tag, sources_str(body, it.args[pidx - 1])), it)
+                        n_events[0] += 1
+                        tags.add(tag)
+                        changed = True
         if isinstance(it, Term) and it.kind == "call":
             # AddAssign on a field (SeqNr counters)
             for tag, (fld, op, chk) in counters.items():
@@ -266,3 +325,127 @@ def copied_from(body, op):
     return None
 
 
+
+
+def copy_root(body, op):
+    """index of the local an operand is a plain copy of (through single-definition `x = copy/move y` chains); None for constants/projections"""
+    pl = op.place if isinstance(op, Operand) else op
+    if pl is None or not pl.is_local:
+        return None
+    l = pl.local
+    for _ in range(8):
+        d = body.unique_def(l)
+        if isinstance(d, Stmt) and d.rv.kind == "use" and d.rv.ops[0].place is not None and d.rv.ops[0].place.is_local:
+            l = d.rv.ops[0].place.local
+        else:
+            break
+    return l
+
+
+def nonzero_test(c, truth):
+    """if the branch condition `c` having value `truth` implies X != 0 for an unsigned operand X, return X (an Operand)"""
+    if c.kind != "bin":
+        return None
+    a, b, op = c.a, c.b, c.op
+
+    def k(o, v):
+        return o.kind == "const" and o.scalar == v
+    if k(b, 0) and ((op in ("Gt", "Ne") and truth) or (op in ("Eq", "Le") and not truth)):
+        return a
+    if k(a, 0) and ((op in ("Lt", "Ne") and truth) or (op in ("Eq", "Ge") and not truth)):
+        return b
+    if k(b, 1) and ((op == "Ge" and truth) or (op == "Lt" and not truth)):
+        return a
+    if k(a, 1) and ((op == "Le" and truth) or (op == "Gt" and not truth)):
+        return b
+    return None
+
+
+def zero_test(c, truth):
+    """if `c == truth` implies X == 0 for an unsigned operand X, return X"""
+    return nonzero_test(c, not truth)
+
+
+def implied(c, truth):
+    """normalised relations implied by "branch condition c evaluates to truth": a list of (rel, x, y) with rel in
+    lt (x < y), le (x <= y), eq, ne (both symmetric, listed in both orders).  Every way of writing the same test -
+    swapped operands, negated operator, taking the else branch - yields the same relations."""
+    out = []
+    o = ordering(c, truth)
+    if o is not None:
+        lo, hi, strict = o
+        out.append(("le", lo, hi))
+        if strict:
+            out.append(("lt", lo, hi))
+            out.append(("ne", lo, hi))
+            out.append(("ne", hi, lo))
+    if c.kind == "bin" and c.op in ("Eq", "Ne"):
+        if (c.op == "Eq") == truth:
+            out += [("eq", c.a, c.b), ("eq", c.b, c.a), ("le", c.a, c.b), ("le", c.b, c.a)]
+        else:
+            out += [("ne", c.a, c.b), ("ne", c.b, c.a)]
+    return out
+
+
+def guarded(body, bb, rel, px, py):
+    """is block bb control-dependent on a test implying `x rel y` with px(x) and py(y)?  px/py: Operand -> bool"""
+    for c, truth, d, *_ in controlling(body, bb):
+        for r, x, y in implied(c, truth):
+            if r == rel and px(x) and py(y):
+                return True
+    return False
+
+
+def rv_ordering(rv):
+    """for a comparison *value* `v = a OP b` (not a branch): (lo, hi, strict) that holds when v is true"""
+    class _C:
+        pass
+    c = _C()
+    c.kind, c.op = rv.kind, rv.op
+    if rv.kind != "bin" or len(rv.ops) != 2:
+        return None
+    c.a, c.b = rv.ops
+    return ordering(c, True)
+
+
+def call_sites_of(F, fname):
+    return [(b, t) for b in F.bodies() for t in b.calls() if t.resolved == fname]
+
+
+def resolve_param(F, body, t, k=0, depth=0):
+    """A value that is a bare parameter of a (private) fn is whatever its callers pass: [(caller body, affine Trace of the argument, offset)]
+    over every call site; [(body, t, k)] unchanged for anything else.  This is what makes `extract helper fn` refactorings invisible."""
+    if t.kind == "param" and not t.fields and body.kind != "closure" and depth < 3:
+        sites = call_sites_of(F, body.name)
+        if sites:
+            out = []
+            for cb, ct in sites:
+                i = t.root[1] - 1
+                if i >= len(ct.args):
+                    return [(body, t, k)]
+                at, ak = affine_trace(cb, ct.args[i])
+                out += resolve_param(F, cb, at, k + ak, depth + 1)
+            return out
+    return [(body, t, k)]
+
+
+def returned_call(body):
+    """the call whose result a fn returns (its only definition of the return place, through plain copies), else None"""
+    t = trace(body, Place({"l": 0, "p": []}))
+    if t.kind == "call" and not t.fields:
+        return t.root[1]
+    return None
+
+
+def is_fn_param(body, t, idx):
+    """the Trace root is parameter `idx` of the enclosing fn - directly, or as a variable captured by a closure / async block of it"""
+    from utpsa.prov import upvar_origin
+    if t.kind == "param":
+        return t.root[1] == idx and body.kind != "closure"
+    if t.kind == "upvar":
+        o = upvar_origin(body, t.root[1])
+        while o is not None and o[0] == "local":
+            # a local of an intermediate closure that re-binds the captured parameter under the same name
+            return False
+        return o is not None and o[0] == "param" and o[1] == idx and o[2].kind != "closure"
+    return False
